@@ -331,6 +331,29 @@ def serverVerifySortition {SK PK Proof Rand} (V : Vrf SK PK Proof Rand) (cdf : F
     (pk : PK) (seed : List UInt8) (index role : Nat) (proof : Proof) (subUsers : Nat) (s : Stakes) : NodeVerdict :=
   nodeSortitionOutcome ctx msgRound index (verifySortition V cdf pk seed index role proof subUsers s)
 
+/-! ### the committee size per credential kind (`Server.getLookbackStakeInfo`, sortition_verifier.go)
+
+The committee (`threshold` of `VrfSortition` / `VrfVerifySortition`) is: for a proposer the `ProposerThreshold` of the
+parameters in force; for Prevote/Precommit/NextIndex the `ValidatorThreshold` in force; for a **Certificate** credential
+the `CertValThreshold` of the protocol version RECORDED ON THE CERTIFICATE LOOK-BACK HEADER
+(`params.Versions[lookBackHeader.CurrVersion]`), 0 when that version is unknown — never the one in force. -/
+
+inductive CredKind where
+  | propose | vote | certificate
+  deriving Repr, DecidableEq
+
+structure Committees where
+  proposer : Nat
+  validator : Nat
+  cert : Nat
+
+def committeeFor (inForce : Committees) (certLookBackVersion : Option Committees) : CredKind → Nat
+  | .propose => inForce.proposer
+  | .vote => inForce.validator
+  | .certificate => match certLookBackVersion with
+    | some v => v.cert
+    | none => 0
+
 /-! ### the live entry point of proposer priorities (proposal.go)
 
 `Proposal.processPriorityMessage` / `processProposedBlockMsg` do not hand the received payload to `Server.verifyPriority`:
